@@ -113,19 +113,24 @@ def build_change(project, ops, model, desc="composite"):
 class Env:
     """A fresh project with a non-empty undo and redo list, plus the composite under test."""
 
-    def __init__(self, scratch, ops):
+    def __init__(self, scratch, ops, tight=False):
         self.scratch = scratch
         self.root = scratch.new(INIT)
         self.fs = FaultFS()
-        self.p = Project(self.root, fscommands=self.fs, ropefolder=None)
+        if tight:
+            # history limit 1 and one recorded change: the undo list is full when the composite is performed
+            self.p = Project(self.root, fscommands=self.fs, ropefolder=None, max_history_items=1)
+        else:
+            self.p = Project(self.root, fscommands=self.fs, ropefolder=None)
         p = self.p
         c1 = change.ChangeSet("prep1")
         c1.add_change(change.CreateFile(p.root, "z.py"))
         c2 = change.ChangeSet("prep2")
         c2.add_change(change.CreateFile(p.root, "y.py"))
         p.do(c1)
-        p.do(c2)
-        p.history.undo()
+        if not tight:
+            p.do(c2)
+            p.history.undo()
         m = TreeModel(INIT)
         m.create_file("z.py")
         self.cs = build_change(p, ops, m)
@@ -200,6 +205,9 @@ class C10(Check):
         if tier == "thorough":
             for seq in itertools.product(OPS_SMALL, repeat=4):
                 add([tuple(o) for o in seq])
+        for c in list(out):
+            if len(list(flat(c["ops"]))) <= 2 and not any(o[0] == "SET" for o in c["ops"]):
+                out.append({"ops": c["ops"], "tight": True})
         out.append({"refactoring": "rename_module"})
         out.append({"refactoring": "module_to_package"})
         out.append({"refactoring": "move_module"})
@@ -211,7 +219,7 @@ class C10(Check):
     # -- one execution -------------------------------------------------------------
     def _env(self, case):
         if "ops" in case:
-            return Env(self.scratch, case["ops"])
+            return Env(self.scratch, case["ops"], case.get("tight", False))
         return RefEnv(self.scratch, case["refactoring"])
 
     def run(self, case):
@@ -219,7 +227,7 @@ class C10(Check):
         ops = case.get("ops")
         kinds = [o[0] for o in flat(ops)] if ops else [case["refactoring"]]
         flat_kinds = kinds if ops else []
-        base_feats = sorted({"has:" + k for k in kinds} | ({"nested"} if ops and any(o[0] == "SET" for o in ops) else set()))
+        base_feats = sorted({"has:" + k for k in kinds} | ({"nested"} if ops and any(o[0] == "SET" for o in ops) else set()) | ({"history:full"} if case.get("tight") else set()))
 
         def out(o):
             res["out"][o] = res["out"].get(o, 0) + 1
